@@ -15,6 +15,7 @@ def isum(xs):
     return r
 
 
+@isolated('images')
 def obligations(prefix):
     u = Unit(RT, "RTreeWrappingNearestNeighbourIter::new")
     stmts = u.fn["body"]["stmts"]
